@@ -1005,6 +1005,7 @@ Proof.
       destruct (exec_body_calm sl b s0 Hit) as (s' & E & A & B & C & D); [simpl; assumption|];
       pose proof (exec_body_pops b s0) as [P1 P2] end.
     rewrite E in *. simpl in *. exists s'. repeat split; auto.
+    rewrite P1, Hp. reflexivity.
   - eexists. split; [reflexivity|]. simpl. repeat split; auto; lia.
 Qed.
 
